@@ -279,6 +279,8 @@ MathFunc(f, all) ==
       [] f = "pow" ->
              IF n # 2 THEN Err("other")
              ELSE IF all[1].t \in {"int", "uint"} /\ all[2].t \in {"int", "uint"} THEN PowInt(all[1].n, all[2].n, all[1].t)
+             \* an integer base has no power for an exponent that is not a number or is negative
+             ELSE IF all[1].t \in {"int", "uint"} /\ all[2].t = "dbl" /\ (DIsNaN(DOf(all[2])) \/ (DOf(all[2]).neg /\ ~DIsZero(DOf(all[2])))) THEN Err("other")
              ELSE IF all[1].t \in {"int", "uint", "dbl"} /\ all[2].t \in {"int", "uint", "dbl"} THEN AnyOut
              ELSE Err("other")
       [] OTHER -> AnyOut
